@@ -4,7 +4,7 @@
 # Uses a private copy of /verif and a private worktree of /repo under /tmp/seedbed.
 set -e
 PATCH=$(readlink -f "$1"); PROP=$2; TIER=${3:-quick}
-BED=/tmp/seedbed
+BED=${BED:-/tmp/seedbed}
 mkdir -p $BED
 if [ ! -d $BED/repo ]; then git -C /repo worktree add --detach $BED/repo HEAD >/dev/null; fi
 git -C $BED/repo checkout -q --detach $(git -C /repo rev-parse HEAD)
